@@ -1,4 +1,6 @@
 import OapiVerif.Model.Union
+import OapiVerif.Model.UnionJson
+import OapiVerif.Props.C07
 /-!
 C09 — Union types store, return and dispatch the right member.
 
@@ -178,3 +180,116 @@ example : table [("cat", "#/Cat"), ("kitten", "#/Cat"), ("dog", "#/Dog")] (fun r
     ["#/Cat", "#/Dog", "#/Bird"] = [("cat", "Cat"), ("kitten", "Cat"), ("dog", "Dog"), ("Bird", "Bird")] := by decide
 
 end OapiVerif.Union
+
+namespace OapiVerif.UnionJson
+open JsonObj
+
+variable {V : Type}
+
+theorem declaredOut_keys_nodup (zero : V) : ∀ (fs : List Field) (ovs : List (Option V)), (fs.map (·.name)).Nodup →
+    ((declaredOut zero fs ovs).map (·.1)).Nodup ∧ ∀ kv ∈ declaredOut zero fs ovs, kv.1 ∈ fs.map (·.name) := by
+  intro fs
+  induction fs with
+  | nil => intro ovs _; cases ovs <;> simp [declaredOut]
+  | cons f rest ih =>
+    intro ovs hnd
+    rw [List.map_cons, List.nodup_cons] at hnd
+    cases ovs with
+    | nil => simp [declaredOut]
+    | cons ov ovs =>
+      obtain ⟨h1, h2⟩ := ih ovs hnd.2
+      have hsub : ∀ kv ∈ declaredOut zero rest ovs, kv.1 ∈ (f :: rest).map (·.name) :=
+        fun kv h => List.mem_cons_of_mem _ (h2 kv h)
+      have hcons : ∀ v : V, (((f.name, v) :: declaredOut zero rest ovs).map (·.1)).Nodup ∧
+          ∀ kv ∈ (f.name, v) :: declaredOut zero rest ovs, kv.1 ∈ (f :: rest).map (·.name) := by
+        intro v
+        refine ⟨?_, ?_⟩
+        · rw [List.map_cons, List.nodup_cons]
+          refine ⟨?_, h1⟩
+          intro hm
+          obtain ⟨kv, hkv, e⟩ := List.mem_map.mp hm
+          have hk := h2 kv hkv
+          have e' : kv.1 = f.name := e
+          rw [e'] at hk
+          exact hnd.1 hk
+        · intro kv h
+          rcases List.mem_cons.mp h with e | h'
+          · rw [e]; exact List.mem_cons_self
+          · exact hsub kv h'
+      simp only [declaredOut]
+      cases ov with
+      | some v => exact hcons v
+      | none =>
+        by_cases hn : f.optNil = true
+        · simp only [hn, if_true]; exact ⟨h1, hsub⟩
+        · simp only [hn, Bool.false_eq_true, if_false]; exact hcons zero
+
+/-- **Marshalling yields the stored member's JSON merged with the union's own fixed properties**: a member name is looked up
+among the own properties that are written (set fields, and nil fields of properties that are not optional) and, when it
+is not one of them, in the stored member. For every union value and every member name. -/
+theorem C09_marshal_is_member_overlaid_with_own (zero : V) (fs : List Field) (u : U V) (hf : (fs.map (·.name)).Nodup)
+    (k : String) :
+    lookup (marshal zero fs u) k = (lookup (declaredOut zero fs u.own) k).or (lookup (u.raw.getD []) k) := by
+  unfold marshal
+  exact lookup_foldl_insert _ _ (declaredOut_keys_nodup zero fs u.own hf).1 k
+
+/-- a name that is no own property comes from the stored member alone -/
+theorem C09_marshal_keeps_member_names (zero : V) (fs : List Field) (u : U V) (hf : (fs.map (·.name)).Nodup)
+    (k : String) (hk : k ∉ fs.map (·.name)) : lookup (marshal zero fs u) k = lookup (u.raw.getD []) k := by
+  rw [C09_marshal_is_member_overlaid_with_own zero fs u hf k]
+  have : lookup (declaredOut zero fs u.own) k = none := by
+    unfold lookup
+    simp only [Option.map_eq_none_iff, List.find?_eq_none, decide_eq_true_eq]
+    intro kv hkv e
+    exact hk (e ▸ (declaredOut_keys_nodup zero fs u.own hf).2 kv hkv)
+  rw [this]; rfl
+
+/-- **Unmarshal followed by marshal is lossless**: every member of a valid instance (the own properties that are not
+optional are present) comes back with its value, nothing is invented. -/
+theorem C09_unmarshal_marshal_lossless (zero : V) (fs : List Field) (o : List (String × V))
+    (hf : (fs.map (·.name)).Nodup) (hv : Valid fs o) (k : String) :
+    lookup (marshal zero fs (unmarshal fs o)) k = lookup o k := by
+  rw [C09_marshal_is_member_overlaid_with_own zero fs _ hf k]
+  show (lookup (declaredOut zero fs (fs.map fun f => lookup o f.name)) k).or (lookup o k) = lookup o k
+  rw [lookup_declaredOut zero fs o hf k]
+  cases hfind : fs.find? (·.name = k) with
+  | none => rfl
+  | some f =>
+    have hfm := List.mem_of_find?_eq_some hfind
+    have hfk : f.name = k := by simpa using List.find?_some hfind
+    cases ho : lookup o k with
+    | some v => rfl
+    | none =>
+      by_cases hn : f.optNil = true
+      · simp [hn]
+      · have := hv f hfm (by simpa using hn)
+        rw [hfk, ho] at this
+        cases this
+
+/-- After `From<Member>` on a fresh union value: the member's JSON, except that an own property which is not optional (a
+required one, nullable or not) is written with its nil/zero encoding over the member's value of that name. -/
+theorem C09_from_member_then_marshal (zero : V) (fs : List Field) (member : List (String × V))
+    (hf : (fs.map (·.name)).Nodup) (k : String) :
+    lookup (marshal zero fs (fromMember (fresh fs) member)) k =
+      match fs.find? (·.name = k) with
+      | some f => if f.optNil then lookup member k else some zero
+      | none => lookup member k := by
+  rw [C09_marshal_is_member_overlaid_with_own zero fs _ hf k]
+  show (lookup (declaredOut zero fs (fs.map fun _ => (none : Option V))) k).or (lookup member k) = _
+  have h := lookup_declaredOut zero fs ([] : List (String × V)) hf k
+  have e : (fs.map fun f => lookup ([] : List (String × V)) f.name) = fs.map fun _ => (none : Option V) := by
+    apply List.map_congr_left; intro f _; rfl
+  rw [e] at h
+  rw [h]
+  cases fs.find? (·.name = k) with
+  | none => rfl
+  | some f =>
+    have : lookup ([] : List (String × V)) k = none := rfl
+    rw [this]
+    by_cases hn : f.optNil = true <;> simp [hn]
+
+/-- non-vacuity: own properties `meta` (optional) and `name` (required, nullable) over a stored cat -/
+example : marshal "null" [⟨"meta", true⟩, ⟨"name", false⟩] (fromMember (fresh [⟨"meta", true⟩, ⟨"name", false⟩]) [("kind", "\"cat\""), ("name", "\"Tom\"")]) =
+    [("kind", "\"cat\""), ("name", "null")] := by decide
+
+end OapiVerif.UnionJson
